@@ -124,6 +124,23 @@ def check_case(root, spec, fpat, epat, names, out, case_extra=None):
         out.violation(dict(case, problem='get_skipped() is not visited - returned', skipped=sk, visited=visited, returned=len(got)),
                       bucket=('skipped',))
         return None
+    # the same root spelled with a trailing separator, with `/.`, and as `.` from inside it
+    try:
+        with util.watchdog(15), util.ScandirCounter(6000):
+            for label, sp in (('trailing separator', root + '/'), ('trailing /.', root + '/.'), ('cwd', '.')):
+                ctx = util.chdir(root) if label == 'cwd' else util.chdir(os.getcwd())
+                with ctx:
+                    w2 = WM.WcMatch(sp, fpat, epat, flags=fl)
+                    got2 = [os.path.relpath(p, sp) for p in w2.match()]
+                    sk2 = w2.get_skipped()
+                out.evaluations += 1
+                if collections.Counter(got2) != collections.Counter(got) or sk2 != sk:
+                    out.violation(dict(case, problem='result depends on how the root directory is spelled: ' + label, got=sorted(got2)[:12],
+                                       want=sorted(got)[:12], skipped=[sk2, sk]), size=len(fpat) * 10 + len(epat) * 10 + len(names),
+                                  bucket=('root-spelling', label))
+                    return None
+    except util.HarnessBudget:
+        out.stats['budget_skipped'] += 1
     return got, visited
 
 
